@@ -34,7 +34,7 @@ where
     }
 
     pub fn clear(&mut self) {
-        self.root_mut().take();
+        drop_subtree(self.root_mut().take());
         self.size = 0;
     }
 
@@ -325,6 +325,23 @@ where
 pub struct IntoIter<K, V> {
     cur: Option<Box<Node<K, V>>>,
     remaining: usize,
+}
+
+impl<K, V> Drop for IntoIter<K, V> {
+    fn drop(&mut self) {
+        drop_subtree(self.cur.take());
+    }
+}
+
+/// Drops all nodes of a subtree without recursion, so that degenerate (list-like)
+/// trees of arbitrary size cannot overflow the stack.
+fn drop_subtree<K, V>(root: Option<Box<Node<K, V>>>) {
+    let mut stack = Vec::new();
+    stack.extend(root);
+    while let Some(mut node) = stack.pop() {
+        stack.extend(node.pop_left());
+        stack.extend(node.pop_right());
+    }
 }
 
 impl<K, V> Iterator for IntoIter<K, V> {
